@@ -128,8 +128,8 @@ func S4Provenance(p *core.Program, a *spec.Anchors, r *core.Report) {
 	r.Count("S4.write_sites", total)
 	r.Min("S4.write_sites", 150)
 	r.Min("S4.write_sites_store", 100)
-	r.Min("S4.write_sites_copy", 5)
-	r.Min("S4.write_sites_append", 3)
+	r.Min("S4.write_sites_copy", 2)
+	r.Min("S4.write_sites_append", 1)
 }
 
 func (c *s4ctx) siteWhat(s s4Site, ordinal map[string]int) string {
@@ -156,8 +156,18 @@ func (c *s4ctx) allowed(s s4Site) (reason string, note bool) {
 			return "ResetGradContext replaces the receiver's gradient context; shape and elements are untouched", false
 		}
 		// 3. a metric accumulates into its own counters
-		if isField && c.fnAccumulate != nil && s.fn == c.fnAccumulate && paramIndex(s.fn, fr.Base) == 0 && fr.Struct.Obj().Name() == "Accuracy" && !c.e.pointerful(x.Val.Type()) {
-			return "Accuracy.Accumulate updates the scalar counters of its own receiver; no tensor is involved", false
+		//    (matched by package and type, not by function or field name: the counters may live in an embedded
+		//    helper struct and be updated by its methods)
+		if isField && c.fnAccumulate != nil && core.PkgPathOf(s.fn) == core.PkgMetrics && fr.Struct.Obj().Pkg() != nil && fr.Struct.Obj().Pkg().Path() == core.PkgMetrics && !c.e.pointerful(x.Val.Type()) {
+			onlyParams := true
+			for r := range c.e.get(s.addr) {
+				if r.kind != rkParam && r.kind != rkLocal {
+					onlyParams = false
+				}
+			}
+			if onlyParams {
+				return "a metric updates the scalar counters of its own object; no tensor is involved", false
+			}
 		}
 		// 4. the optimizer step replaces the tensor handle behind the pointer it is given; the old tensor is not modified
 		if c.fnSGDUpdate != nil && s.fn == c.fnSGDUpdate && len(s.fn.Params) > 1 && x.Addr == s.fn.Params[1] {
